@@ -10,6 +10,8 @@ import heapq
 
 from collections import deque
 
+from six import itervalues
+
 from ...geometry import concentric_hexagons, to_xyz, \
     shortest_mesh_path_length, shortest_mesh_path, \
     shortest_torus_path_length, shortest_torus_path
@@ -498,8 +500,11 @@ def avoid_dead_links(root, machine, wrap_around=False):
                 # of the A* path.
                 new_node = lookup[(x, y)]
 
-                # Find the node's current parent and disconnect it.
-                for node in lookup[child]:  # pragma: no branch
+                # Find the node's current parent and disconnect it. NB: The
+                # parent may be a node which has itself already been severed
+                # from the disconnected tree and merged into the path so all
+                # nodes (not just those still below `child`) are considered.
+                for node in itervalues(lookup):  # pragma: no branch
                     dn = [(d, n) for d, n in node.children if n == new_node]
                     assert len(dn) <= 1
                     if dn:
